@@ -373,6 +373,7 @@ static int modeRun() {
         if (o >= 0 && !g_nopost && op.geti("post", 1) && w.objs.count(o)) ev.set("post", verif::abs(*w.objs[o]));
         std::string s; ev.dump(s); s += '\n';
         fwrite(s.data(), 1, s.size(), stdout);
+        fflush(stdout);                      // drivers may generate the next call from this event
     }
     fflush(stdout);
     return 0;
